@@ -2,6 +2,7 @@
 use vstd::prelude::*;
 use vstd::slice::SliceIndexSpec;
 use vstd::std_specs::iter::IteratorSpec;
+use core::cmp::Ordering::{Equal, Greater, Less};
 verus! {
 global size_of usize == 8;
 //@include prelude/std_contracts.rs
